@@ -52,3 +52,16 @@ Theorem C17_report : forall v p i t, mode_flag p = Some i ->
   znth i (vflags (dec_mode v p t)) false = (if (0 <=? i) && (i <? zlen (vflags t)) then v else znth i (vflags t) false).
 Proof. exact dec_mode_reports_flag. Qed.
 Print Assumptions C17_report.
+
+(* a compound sequence "CSI ? a ; b ; ... h" (or l) is executed parameter by parameter: it equals the
+   sequence of the single-parameter forms, each acting on the state and on the active buffer the
+   previous one left (so "?1049;7h" sets autowrap on the alternate buffer it has just entered) *)
+Theorem C17_compound_sequential : forall (v : bool) ps1 ps2 t,
+  let f := if v then 104 else 108 in
+  exec_csi 63 (ps1 ++ ps2) f t = exec_csi 63 ps2 f (exec_csi 63 ps1 f t).
+Proof. exact csi_modes_sequential. Qed.
+Print Assumptions C17_compound_sequential.
+
+Theorem C17_single : forall (v : bool) p t, exec_csi 63 [p] (if v then 104 else 108) t = dec_mode v p t.
+Proof. exact csi_mode_single. Qed.
+Print Assumptions C17_single.
